@@ -2,6 +2,7 @@
 package main
 
 import (
+	"reflect"
 	"fmt"
 	"math"
 	"strings"
@@ -118,7 +119,53 @@ func collectionPredicate(c orb.Collection) string {
 	return ""
 }
 
-func classify(norm orb.Geometry, base string, err error) string {
+// recordedBehaviour: the known WKT findings are "the text is refused" (ErrNotWKT / ErrUnsupportedGeometry and no
+// value) and, for collections with nested or EMPTY members, "members are silently dropped" (the result is a collection
+// whose leaves are a subsequence of the expected leaves: members dropped, nesting lost). Any other outcome on such an input - a value with other coordinates,
+// another kind, another error - is not the recorded finding.
+func recordedBehaviour(norm, got orb.Geometry, err error) bool {
+	isNil := got == nil || reflect.ValueOf(got).Kind() == reflect.Slice && reflect.ValueOf(got).Len() == 0
+	if err == wkt.ErrNotWKT || err == wkt.ErrUnsupportedGeometry {
+		return isNil
+	}
+	if err != nil {
+		return false
+	}
+	want, ok1 := norm.(orb.Collection)
+	have, ok2 := got.(orb.Collection)
+	if !ok1 || !ok2 {
+		return false
+	}
+	// members dropped and nesting lost: the leaves of the result are a subsequence of the expected leaves
+	var flatten func(c orb.Collection, out []orb.Geometry) []orb.Geometry
+	flatten = func(c orb.Collection, out []orb.Geometry) []orb.Geometry {
+		for _, m := range c {
+			if mc, ok := m.(orb.Collection); ok && len(mc) > 0 {
+				out = flatten(mc, out)
+			} else {
+				out = append(out, m)
+			}
+		}
+		return out
+	}
+	wl, hl := flatten(want, nil), flatten(have, nil)
+	i := 0
+	for _, m := range hl {
+		for i < len(wl) && refgeom.Struct(wl[i]) != refgeom.Struct(m) {
+			i++
+		}
+		if i == len(wl) {
+			return false
+		}
+		i++
+	}
+	return true
+}
+
+func classify(norm orb.Geometry, base string, err error, got orb.Geometry) string {
+	if !recordedBehaviour(norm, got, err) {
+		return base
+	}
 	pred := ""
 	if hasEmptyPart(norm) {
 		pred = "empty-part"
@@ -148,14 +195,14 @@ func roundTrip(c *mc.Ctx, g orb.Geometry) {
 	desc := fmt.Sprintf("geometry=%T %v text=%q", g, g, text)
 	got, err := wkt.Unmarshal(text)
 	if err != nil || refgeom.Struct(got) != refgeom.Struct(norm) {
-		c.Failf(classify(norm, "roundtrip", err), "Unmarshal returned %T %v, %v; want %T %v | %s", got, got, err, norm, norm, desc)
+		c.Failf(classify(norm, "roundtrip", err, got), "Unmarshal returned %T %v, %v; want %T %v | %s", got, got, err, norm, norm, desc)
 	}
 	own := kindName(norm)
 	for _, tp := range typed {
 		tg, terr := tp.f(text)
 		if tp.kind == own {
 			if terr != nil || refgeom.Struct(tg) != refgeom.Struct(norm) {
-				c.Failf(classify(norm, "typed-roundtrip", terr), "Unmarshal%s returned %v, %v; want %v | %s", tp.kind, tg, terr, norm, desc)
+				c.Failf(classify(norm, "typed-roundtrip", terr, tg), "Unmarshal%s returned %v, %v; want %v | %s", tp.kind, tg, terr, norm, desc)
 			}
 		} else if terr != wkt.ErrIncorrectGeometry {
 			c.Failf("typed-wrong-kind", "Unmarshal%s on %s text returned %v, %v; want ErrIncorrectGeometry | %s", tp.kind, own, tg, terr, desc)
@@ -392,7 +439,7 @@ func main() {
 						inner = true
 					}
 				}
-				if inner {
+				if inner && recordedBehaviour(norm, got, err) {
 					cl = "wkt:collection-inner-whitespace"
 				}
 			}
